@@ -248,3 +248,28 @@ def digital_value(work, V, tier='thorough'):
     return full + [
             {'module': 'DigitalValue', 'cfg': 'MC_DigitalValue_prefix.cfg (sign counted in the distance to a separator, before the fix)', 'distinct_states': old['distinct'], 'violation': old['violation'], 'expected_violation': 'MeetsLiteral'},
             {'module': 'DigitalValue', 'cfg': 'MC_DigitalValue_bind.cfg', 'distinct_states': b['distinct'], 'violation': b['violation'], 'strings_evaluated_by_code': n, 'drift': drift}]
+
+
+def cjk_int_value(work, V, tier='thorough'):
+    """CJKIntValue.tla: get_int_value evaluates the standard written form of n to n (and the colloquial short forms to
+    what they mean); every written form of the configuration is evaluated by the real function of the zh-cn parser."""
+    cfg = 'MC_CJKIntValue_quick.cfg' if tier == 'quick' else 'MC_CJKIntValue.cfg'
+    r = tlc.run(work, 'MC_CJKIntValue', cfg=cfg, dump=True, timeout=1800)
+    if not r['ok']:
+        V.note('mechanism-drift: CJKIntValue/%s violates %s' % (cfg, r['violation']))
+    finals = {}
+    for st in tlc.read_dump(r['dump'], where='pc = "done"'):
+        finals[st['inp']['text']] = st['intV']
+    keys = sorted(finals)
+    cases = [{'api': 'cjkint', 'culture': 'zh-cn', 'texts': keys[i:i + 500]} for i in range(0, len(keys), 500)]
+    obs = pool.run_cases(cases, init_name='number', batch=2, timeout=60.0)
+    drift = n = 0
+    for c, o in zip(cases, obs):
+        got = o.get('out') or []
+        for t, g in zip(c['texts'], got + [None] * (len(c['texts']) - len(got))):
+            n += 1
+            if g != finals[t]:
+                drift += 1
+                if drift <= 3:
+                    V.note('mechanism-drift: get_int_value(%r): model %s, code %s' % (t, finals[t], g))
+    return [{'module': 'CJKIntValue', 'cfg': cfg, 'distinct_states': r['distinct'], 'violation': r['violation'], 'written_forms_evaluated_by_code': n, 'drift': drift}]
